@@ -411,8 +411,9 @@ Definition step (fx : fixes) (s : fsys * document) (o : op) : (fsys * document) 
 Definition run (fx : fixes) (s : fsys * document) (os : list op) : fsys * document := fold_left (fun s o => fst (step fx s o)) os s.
 
 (* ---------------------------------------------------------------- what a reader is entitled to see *)
-Variable mask : xml -> xml.             (* the projection the property allows: generator stamp (and, for pretty, layout) removed *)
-Inductive content := CBytes (b : bytes) | CXml (x : xml).
+Variable proj : Type.                   (* what a reader is entitled to see of an XML part: any projection ... *)
+Variable mask : xml -> proj.            (* ... e.g. the infoset with the generator stamp removed; for pretty, the layout-insensitive reading *)
+Inductive content := CBytes (b : bytes) | CXml (x : proj).
 (* bytes of a part as the container holds them: memory first, unread members come from the file *)
 Definition bytes_of (fs : fsys) (d : document) (n : name) : option bytes :=
   match lookup n (parts (cont d)) with
@@ -508,7 +509,7 @@ End Pkg.
 
 Arguments FZip {bytes kid}. Arguments FDir {bytes kid}. Arguments FFlat {bytes kid}.
 Arguments mkC {bytes}. Arguments mkD {xml bytes}.
-Arguments CBytes {xml bytes}. Arguments CXml {xml bytes}.
+Arguments CBytes {bytes proj}. Arguments CXml {bytes proj}.
 Arguments OOpen {xml bytes}. Arguments ONew {xml bytes}. Arguments OGetPart {xml bytes}. Arguments OTouch {xml bytes}.
 Arguments OEdit {xml bytes}. Arguments OSetPart {xml bytes}. Arguments ODelPart {xml bytes}. Arguments OAddFile {xml bytes}.
 Arguments OImport {xml bytes}. Arguments OSave {xml bytes}. Arguments OClone {xml bytes}. Arguments OMerge {xml bytes}.
@@ -543,12 +544,12 @@ Definition cx_eqb_exact := cx_eqb.
 (* layout ignored altogether (after a pretty save) *)
 Definition cx_eqb_loose (a b : cxml) : bool :=
   match a, b with CX s l es ks, CX s' l' es' ks' => (l =? l') && list_eqb ent_eqb es es' && list_eqb Z.eqb ks ks' end.
-Definition ccont_eqb_loose (a b : content cxml cbytes) : bool :=
+Definition ccont_eqb_loose (a b : content cbytes cxml) : bool :=
   match a, b with CBytes (CB x), CBytes (CB y) => x =? y | CBytes (CS x), CBytes (CS y) => cx_eqb_loose x y
                 | CXml x, CXml y => cx_eqb_loose x y | _, _ => false end.
 Definition cb_eqb (a b : cbytes) : bool :=
   match a, b with CB x, CB y => x =? y | CS x, CS y => cx_eqb x y | _, _ => false end.
-Definition ccont_eqb (a b : content cxml cbytes) : bool :=
+Definition ccont_eqb (a b : content cbytes cxml) : bool :=
   match a, b with CBytes x, CBytes y => cb_eqb x y | CXml x, CXml y => cx_eqb x y | _, _ => false end.
 Definition opt_eqb {A} (e : A -> A -> bool) (a b : option A) : bool :=
   match a, b with Some x, Some y => e x y | None, None => true | _, _ => false end.
@@ -558,8 +559,8 @@ Notation cfs := (fsys cbytes Z).
 Notation cop := (op cxml cbytes).
 Definition cstep (fx : fixes) := step cxml cbytes Z cser cpar cpretty cstamp centries cwith_entries ckids cmime cmime_bytes crdf0 fx.
 Definition cd_clone (fx : fixes) := d_clone cxml cbytes Z cser cpar fx.
-Definition cview := view cxml cbytes Z cpar cmask.
-Definition cfile_view := file_view cxml cbytes Z cpar cmask.
+Definition cview := view cxml cbytes Z cpar cxml cmask.
+Definition cfile_view := file_view cxml cbytes Z cpar cxml cmask.
 Definition cPkgOKb := PkgOKb cxml cbytes Z cpar centries cmime.
 Definition cwfb := wfb cxml cbytes Z.
 Definition cts_invb := ts_invb cxml cbytes Z.
